@@ -154,20 +154,14 @@ func runMem(r *vk.Run, s Sequence, pool []*Blk, heights []uint64, keys []string,
 		}
 		m.apply(op, pool)
 		if crashAfter < 0 && isSave(op.K) {
-			// what one SaveBlockData makes durable: exactly one write, a batch of the four records
-			r.Hit("save-is-one-write")
+			// what one SaveBlockData makes durable is recorded, not judged: how the records are written is the store's
+			// business; whether a crash between the writes can be seen is decided by the crash enumeration below
+			r.Hit("save-write-shape-observed")
 			log := dsp.Log()
-			if did != 1 {
-				ck.fail("save-is-one-write", "SaveBlockData(height %d) issued %d durable writes: %v", op.H, did, world.FormatLog(log[len(log)-did:]))
+			if did == 1 && log[len(log)-1].Op == "batch" {
+				r.Count("saves_made_durable_by_one_batch", 1)
 			} else {
-				rec := log[len(log)-1]
-				distinct := map[string]bool{}
-				for _, k := range rec.Keys {
-					distinct[k] = true
-				}
-				if rec.Op != "batch" || len(rec.Keys) != 4 || len(distinct) != 4 {
-					ck.fail("save-is-one-write", "SaveBlockData(height %d) wrote %s %v, expected one batch of four records", op.H, rec.Op, rec.Keys)
-				}
+				r.Count("saves_made_durable_by_several_writes", 1)
 			}
 		}
 	}
@@ -291,12 +285,7 @@ func runSequence(r *vk.Run, base string, s Sequence) {
 		return w
 	}
 	res := runMem(r, s, pool, heights, keys, -1)
-	onlyWriteShape := true // the crash enumeration is still meaningful if reads were all right
-	for _, p := range res.probs {
-		if clauseOf(p) != "save-is-one-write" {
-			onlyWriteShape = false
-		}
-	}
+	onlyWriteShape := len(res.probs) == 0 // the crash enumeration is only meaningful if the crash-free run was all right
 	if len(res.probs) > 0 {
 		r.Violation(clauseOf(res.probs[0]), fmt.Sprintf("sequence %d (in-memory datastore): %s", s.ID, strings.Join(trim(res.probs, 6), " ;; ")), witness(map[string]any{"datastore": "memds"}))
 	}
@@ -360,7 +349,7 @@ func Run(r *vk.Run) {
 	r.Require("read-metadata", int64(n)*5)
 	r.Require("read-missing", int64(n)*10)
 	r.Require("height-running-max", int64(n))
-	r.Require("save-is-one-write", int64(n)*5)
+	r.Require("save-write-shape-observed", int64(n)*5)
 	r.Require("reopen-preserves-everything", int64(n))
 	r.Require("crash-state-equals-completed-ops", int64(n)*3)
 	r.Require("crash-save-all-or-nothing", int64(n))
